@@ -100,6 +100,12 @@ func scenariosC04() []*scenario {
 			}
 		}
 	}
+	// concurrent submitters sharing a new issuer, racing with the rounds
+	for _, s0 := range []int64{0, 255} {
+		o := options{faults: true}
+		out = append(out, &scenario{name: fmt.Sprintf("c04/s%d/shared-issuer", s0), base: s0, opt: o, bound: 2,
+			rounds: [][]string{{}, {}}, subs: [][]string{{"a+1"}, {"b+1"}}, checkC04: true})
+	}
 	return out
 }
 
